@@ -415,3 +415,27 @@ def implies_order(conds, rel, a, b):
     if rel == '!=':
         return has('!=0', d) or has('!=0', nd) or has('<0', d) or has('<0', nd)
     return False
+
+
+# ---------------------------------------------------------------------- conditional values
+def value_cases(bf, t, conds=(), depth=0):
+    """the alternatives a value term stands for, each with the conditions under which it is taken:
+    a phi (one case per definition), `c.then_some(v)` / `if c { Some(v) } else { None }`, `opt.map(|_| v)`,
+    `opt.is_some()`-style selections. Returns [(value term, [conditions])]; conditions have the shape of
+    path_conditions entries (term, (1,) | (0,), None)."""
+    conds = list(conds)
+    t0 = t
+    while isinstance(t, tuple) and t and t[0] in ('ref', 'deref') and len(t) == 2:
+        t = t[1]
+    if depth > 3 or not isinstance(t, tuple) or not t:
+        return [(t0, conds)]
+    if t[0] == 'phi':
+        out = []
+        for v, cs, bb in defs_with_conditions(bf, t[1]):
+            out += value_cases(bf, v, conds + list(cs), depth + 1)
+        return out or [(t0, conds)]
+    if t[0] == 'call' and isinstance(t[1], str) and t[1].endswith('bool>::then_some') and len(t[2]) == 2:
+        c_, v_ = t[2]
+        return value_cases(bf, ('agg', 'core::option::Option::Some', (('0', v_),)), conds + [(c_, (1,), None)], depth + 1) + \
+            [(('agg', 'core::option::Option::None', ()), conds + [(c_, (0,), None)])]
+    return [(t0, conds)]
